@@ -358,4 +358,91 @@ def installCommit (s : St D M) (w : Shared D M) : St D M :=
 def installSwap (s : St D M) (w : Shared D M) : St D M :=
   { s with sh := { s.sh with mmr := w.mmr } }
 
+/-! ## The state-receiving phase (PIBD): MMR published without an LMDB commit
+
+`Desegmenter::apply_output_segments` / `apply_rangeproof_segments` / `apply_kernel_segments` /
+`finalize_bitmap` (desegmenter.rs): `header_pmmr.write()`, `txhashset.write()`, a batch,
+`txhashset::extending(..)` — which syncs the MMR files when the closure succeeds — and then the
+function returns WITHOUT `batch.commit()`: the MMR part of the private copy is published, the LMDB
+part is not touched (`stage`).  The body head stays where it was until
+`Desegmenter::validate_complete_state` commits (an ordinary writer). -/
+
+inductive PStep : St D M → Option (Obs D M) → St D M → Prop where
+  | base {s : St D M} {o : Option (Obs D M)} {s' : St D M} : CStep s o s' → PStep s o s'
+  | stage (s : St D M) (tid : Nat) (b w : Shared D M) : s.wr tid = .working b w →
+      PStep s none { s with sh := { s.sh with mmr := w.mmr }, ts := .free,
+                            wr := fun j => if j = tid then .idle else s.wr j }
+
+inductive PRun (s0 : Shared D M) : St D M → List (Nat × Obs D M) → Prop where
+  | nil : PRun s0 (start s0) []
+  | silent {s s' log} : PRun s0 s log → PStep s none s' → PRun s0 s' log
+  | obs {s s' log o} : PRun s0 s log → PStep s (some o) s' → PRun s0 s' ((s.k, o) :: log)
+
+/-- the LMDB half of an observation -/
+def obsDb : Obs D M → D
+  | .locked d _ => d
+  | .lockfree d => d
+
+/-- what survives the staging steps: the LMDB half of the shared state is that of the last
+committed state -/
+structure DbInv (s : St D M) : Prop where
+  len : s.hist.length = s.k + 1
+  dbok : ∃ c, s.hist.head? = some c ∧ s.sh.db = c.db
+
+theorem dbinv_start (s0 : Shared D M) : DbInv (start s0) := ⟨rfl, s0, rfl, rfl⟩
+
+theorem dbinv_cstep (s s' : St D M) (o : Option (Obs D M)) (hi : DbInv s) (hs : CStep s o s') : DbInv s' := by
+  cases hs <;> first
+    | exact hi
+    | exact ⟨hi.len, hi.dbok⟩
+    | exact ⟨by simp [hi.len], _, rfl, rfl⟩
+
+theorem dbinv_pstep (s s' : St D M) (o : Option (Obs D M)) (hi : DbInv s) (hs : PStep s o s') : DbInv s' := by
+  cases hs with
+  | base h => exact dbinv_cstep s s' o hi h
+  | stage tid b w hw => exact ⟨hi.len, hi.dbok⟩
+
+theorem dbinv_prun (s0 : Shared D M) (s : St D M) (log : List (Nat × Obs D M)) (h : PRun s0 s log) : DbInv s := by
+  induction h with
+  | nil => exact dbinv_start s0
+  | silent _ hs ih => exact dbinv_pstep _ _ _ ih hs
+  | obs _ hs ih => exact dbinv_pstep _ _ _ ih hs
+
+theorem phist_stable (s s' : St D M) (o : Option (Obs D M)) (hs : PStep s o s') (k : Nat) (c : Shared D M)
+    (h : s.hist.reverse[k]? = some c) : s'.hist.reverse[k]? = some c := by
+  cases hs with
+  | base hc => exact hist_stable s s' o hc k c h
+  | stage tid b w hw => exact h
+
+theorem pobs_same_state (s s' : St D M) (o : Obs D M) (hs : PStep s (some o) s') : s' = s := by
+  cases hs with
+  | base hc => exact obs_same_state s s' o hc
+
+theorem pobs_now (s s' : St D M) (o : Obs D M) (hi : DbInv s) (hs : PStep s (some o) s') :
+    ∃ c, s.hist.reverse[s.k]? = some c ∧ obsDb o = c.db := by
+  obtain ⟨c, hc, hdb⟩ := hi.dbok
+  cases hs with
+  | base h =>
+    cases h with
+    | rread n hr => exact ⟨c, reverse_last_of_head _ _ _ hi.len hc, hdb⟩
+    | lfread => exact ⟨c, reverse_last_of_head _ _ _ hi.len hc, hdb⟩
+
+theorem prun_db_committed (s0 : Shared D M) (s : St D M) (log : List (Nat × Obs D M)) (h : PRun s0 s log) :
+    ∀ k o, (k, o) ∈ log → ∃ c, s.hist.reverse[k]? = some c ∧ obsDb o = c.db := by
+  induction h with
+  | nil => intro k o hm; cases hm
+  | silent _ hs ih =>
+    intro k o hm
+    obtain ⟨c, hc, hm'⟩ := ih k o hm
+    exact ⟨c, phist_stable _ _ _ hs k c hc, hm'⟩
+  | @obs s s' log o' hr hs ih =>
+    intro k o hm
+    have hsame := pobs_same_state _ _ _ hs
+    rcases List.mem_cons.mp hm with heq | hm
+    · injection heq with h1 h2; subst h1; subst h2
+      rw [hsame]
+      exact pobs_now s s' o (dbinv_prun s0 s log hr) hs
+    · obtain ⟨c, hc, hm'⟩ := ih k o hm
+      exact ⟨c, phist_stable _ _ _ hs k c hc, hm'⟩
+
 end GV.Conc.Commit
